@@ -153,7 +153,11 @@ def install(eng):
         if 'syscat' not in st.env:
             st.env['syscat'] = st.alloc(16, 'global', 'system_category').obj
         return P(st.env['syscat'], 0)
-    @model('_ZNSt12system_errorC1ESt10error_codeRKNSt7__cxx1112basic_stringIcSt11char_traitsIcESaIcEEE')
+    @model('_ZNSt12system_errorC1ESt10error_codeRKNSt7__cxx1112basic_stringIcSt11char_traitsIcESaIcEEE', '_ZNSt12system_errorC2ESt10error_codeRKNSt7__cxx1112basic_stringIcSt11char_traitsIcESaIcEEE',
+           '_ZNSt12system_errorC2EiRKNSt3_V214error_categoryEPKc', '_ZNSt12system_errorC1EiRKNSt3_V214error_categoryEPKc',
+           '_ZNSt12system_errorC2ESt10error_codePKc', '_ZNSt12system_errorC1ESt10error_codePKc',
+           '_ZNSt12system_errorC2EiRKNSt3_V214error_categoryE', '_ZNSt12system_errorC1EiRKNSt3_V214error_categoryE',
+           '_ZNSt12system_errorC2EiRKNSt3_V214error_categoryERKNSt7__cxx1112basic_stringIcSt11char_traitsIcESaIcEEE')
     def m_syserr(st, a): return exc_ctor(st, a[:1])
 
     # ------------------------------------------------------------ libc strings
